@@ -1594,6 +1594,10 @@ class t2data(object):
                     self._sections.append(keyword)
             else: more = False
         infile.close()
+        if self.type == 'AUTOUGH2' and self.extra_precision:
+            # extra precision sections are echoed if they are also in the main file:
+            self.echo_extra_precision = any([section in self._sections for
+                                             section in self.extra_precision])
         if meshfilename and (self.grid.num_blocks == 0):
             self.meshfilename = meshfilename
             if isinstance(meshfilename, str):
